@@ -5,6 +5,7 @@ knob swarm with equal numeric precision; both outputs are stored in the simulate
 drawn channels; the two results must agree except for the VERS and WRAP items themselves."""
 import copy
 import random
+import re
 
 from .. import canon as C
 from .. import docmodel
@@ -45,6 +46,36 @@ def mask_vers_wrap(c):
         if name == "Version" and sec[0] == "items":
             sec[1] = [it for it in sec[1] if str(it["orig"]).upper() not in ("VERS", "WRAP")]
     return c
+
+
+HYPHEN_NOTE = " [a hyphenated text cell was written into a wrapped data section in which some physical line carries no hyphen]"
+
+
+def hyphenless_note(text):
+    """Harness-side observation of the written text (not of what lasio made of it): a wrapped output that holds a
+    non-numeric token with a digit-hyphen-digit run and at least one data line without any hyphen."""
+    lines = text.replace("\r\n", "\n").split("\n")
+    wrapped = any(ln.strip().upper().startswith("WRAP") and "YES" in ln.upper().split(":")[0] for ln in lines[:12])
+    if not wrapped:
+        return ""
+    start = None
+    for i, ln in enumerate(lines):
+        if ln.strip().upper().startswith("~A"):
+            start = i
+    if start is None:
+        return ""
+    data = [ln for ln in lines[start + 1:] if ln.strip() and not ln.strip().startswith("#")]
+    has_text = False
+    for ln in data:
+        for tok in ln.split():
+            if re.search(r"\d-\d", tok):
+                try:
+                    float(tok)
+                except ValueError:
+                    has_text = True
+    if has_text and any("-" not in ln for ln in data):
+        return HYPHEN_NOTE
+    return ""
 
 
 class C12(Prop):
@@ -98,7 +129,12 @@ class C12(Prop):
     def pred_null(sc, v, params):
         return null_unusable(C12.input_lines(sc) or [])
 
-    predicates = {"well_field_with_colon": pred_colon, "las3_input": pred_las3, "quoted_text_cells": pred_quoted,
+    def pred_hyphen(sc, v, params):
+        """known finding: run-on(-) substitution splits hyphenated text cells unless every sniffed line holds a hyphen;
+        a wrapped output can put such a cell on a different physical line than the other values of its row"""
+        return HYPHEN_NOTE in v["msg"]
+
+    predicates = {"wrapped_hyphenated_text": pred_hyphen, "well_field_with_colon": pred_colon, "las3_input": pred_las3, "quoted_text_cells": pred_quoted,
                   "empty_null_value": pred_null}
 
     @staticmethod
@@ -123,7 +159,20 @@ class C12(Prop):
         elif g.random() < 0.4:
             src = {"kind": "corpus", "file": g.choice(files), "mutate": g.randrange(1 << 30) if g.random() < 0.5 else None}
         else:
-            doc = docmodel.std_doc(g, custom=g.choice([0, 0, 1]), wrap=g.random() < 0.2, ncurves=g.choice([None, None, 8, 14, 15, 21, 22, 28, 29]))
+            ncur = g.choice([None, None, 8, 14, 15, 21, 22, 28, 29])
+            cell = None
+            if g.random() < 0.15:
+                # a text column of hyphenated tokens (dates, lot numbers); optionally every number negative so that
+                # every physical line of a folded row still carries a hyphen
+                ncur = ncur if ncur is not None else g.randint(2, 5)
+                jt, neg = g.randrange(1, max(2, ncur)), g.random() < 0.5
+                style = g.choice(["2018-05-%02d", "%d-34", "7-%d-1"])
+
+                def cell(i, j, jt=jt, neg=neg, style=style):
+                    if j == jt:
+                        return style % (10 + i)
+                    return "%.4f" % (i * 0.5 if j == 0 else (i * 10 + j) * (-1.25 if neg else 1.25))
+            doc = docmodel.std_doc(g, custom=g.choice([0, 0, 1]), wrap=g.random() < 0.2 and cell is None, ncurves=ncur, cell=cell)
             if not doc["wrap"] and g.random() < 0.12:
                 for sec in doc["sections"]:
                     if sec["kind"] == "V":
@@ -184,7 +233,7 @@ class C12(Prop):
             pol = Policy(kind=pol.kind, max_read=max(pol.max_read, 200), max_write=0 if pol.max_write == 0 else max(pol.max_write, 64),
                          buffer=max(pol.buffer, 128), chunk=max(pol.chunk, 64), io_seed=pol.io_seed)
         fs = SimFS(policy=pol)
-        outs = []
+        outs, notes = [], []
         with fs:
             for i in (0, 1):
                 try:
@@ -212,10 +261,11 @@ class C12(Prop):
                     res.skipped = "text not encodable in the drawn codec"
                     return res
                 except Exception as e:
-                    res.violate("C12.output-unreadable", "lasio cannot read what it wrote with %r: %s: %s" % (
-                        kw, type(e).__name__, str(e).strip().splitlines()[-1][:200] if str(e).strip() else ""))
+                    res.violate("C12.output-unreadable", "lasio cannot read what it wrote%s with %r: %s: %s" % (
+                        hyphenless_note(text), kw, type(e).__name__, str(e).strip().splitlines()[-1][:200] if str(e).strip() else ""))
                     res.events = fs.seq
                     return res
+                notes.append(hyphenless_note(text))
                 outs.append(mask_vers_wrap(C.canon(back, strict=False, with_session=True, data=True, index_unit=True)))
         res.events = fs.seq
         res.merge_counts(fs.counts)
@@ -227,8 +277,8 @@ class C12(Prop):
         res.log.append([src.get("file") or len(src.get("lines", [])), src.get("mutate"), sorted(a.items(), key=str), sorted(b.items(), key=str),
                         [c["in"]["channel"] for c in sc["chans"]], C.sha_text(repr(outs[0]))])
         if outs[0] != outs[1]:
-            res.violate("C12.content-differs", "content read back depends on the writer configuration (%r vs %r; rkw=%r): %s" % (
-                a, b, sc["rkw"], "; ".join(C.diff(outs[0], outs[1]))))
+            res.violate("C12.content-differs", "content read back depends on the writer configuration%s (%r vs %r; rkw=%r): %s" % (
+                "".join(sorted(set(notes))), a, b, sc["rkw"], "; ".join(C.diff(outs[0], outs[1]))))
         return res
 
     def shrink_lists(self, sc):
